@@ -47,6 +47,9 @@ type layout struct {
 	nb    uint8
 	low   bool
 	node  int64
+	// viaSetup: the layout is installed through the public Setup(options...) on top of the
+	// package defaults instead of being written into the globals
+	viaSetup bool
 }
 
 func (l layout) tsBits() uint { return 63 - stepBits - uint(l.nb) }
@@ -91,16 +94,31 @@ func pickLayout(rng *rand.Rand, i int) layout {
 	default:
 		l.node = rng.Int63n(max + 1)
 	}
+	// UseEpoch goes through int64 nanoseconds: only epochs it can express take the public path
+	l.viaSetup = rng.Intn(2) == 0 && l.epoch > -nsLimitMs && l.epoch < nsLimitMs
 	return l
 }
 
+const nsLimitMs = (1<<63 - 1) / 1000000
+
 // install sets the package globals; returns restore.
-func (l layout) install() func() { return snowflake.VerifSetConfig(l.epoch, l.nb, l.low) }
+func (l layout) install() func() {
+	if !l.viaSetup {
+		return snowflake.VerifSetConfig(l.epoch, l.nb, l.low)
+	}
+	restore := snowflake.VerifSetConfig(1609430400000, 10, false) // the package defaults
+	opts := []snowflake.Option{snowflake.UseEpoch(time.UnixMilli(l.epoch)), snowflake.UseNodeMode(snowflake.NodeBitsMode(l.nb))}
+	if l.low {
+		opts = append(opts, snowflake.NodeAtLowest())
+	}
+	snowflake.Setup(opts...)
+	return restore
+}
 
 func resetEvent(kind string, l layout, seeded bool, min, now int64, threads int, src string) tr.E {
 	return tr.E{"ev": "reset", "kind": kind, "nb": int(l.nb), "low": l.low, "node": int(l.node),
 		"seeded": seeded, "min": limbs(min), "now": limbs(now), "threads": threads, "src": src,
-		"epoch": limbs(l.epoch)}
+		"epoch": limbs(l.epoch), "setup": l.viaSetup}
 }
 
 // nsovf reports whether the absolute clock reading epoch+rel lies outside the range of int64
@@ -120,12 +138,145 @@ func safeGen(f func() int64) (id int64, pmsg string) {
 	return f(), ""
 }
 
-func newHard(l layout, min int64) snowflake.Node {
+// sink receives trace events (the trace writer, or a buffer filled by a watched goroutine).
+type sink interface{ Emit(tr.E) }
+
+// bufSink collects the events of one history run on its own goroutine.
+type bufSink struct {
+	mu   sync.Mutex
+	evs  []tr.E
+	prog int64 // progress counter: events and ticks
+}
+
+func (b *bufSink) Emit(e tr.E) {
+	b.mu.Lock()
+	b.evs = append(b.evs, e)
+	b.mu.Unlock()
+	atomic.AddInt64(&b.prog, 1)
+}
+
+// tick reports progress of a loop that does not emit (tight call loops).
+func tick(w sink) {
+	if b, ok := w.(*bufSink); ok {
+		atomic.AddInt64(&b.prog, 1)
+	}
+}
+
+// abortHistory ends a history whose generator could not be built (the refusal is in the trace).
+type abortHistory struct{}
+
+var hangs int
+
+// guarded runs one history on its own goroutine and watches it: if it neither finishes nor makes
+// progress for `patience`, the events recorded so far are written followed by a `hang` event
+// (which the specification cannot explain) and the goroutine is abandoned.  A call of the code
+// under test that never returns - spinning or parked - is thereby an observation judged by TLC,
+// not the end of the harness.
+func guarded(w *tr.W, what string, run func(s sink)) {
+	b := &bufSink{}
+	done := make(chan struct{})
+	go func() {
+		defer close(done)
+		defer func() {
+			if p := recover(); p != nil {
+				if _, ok := p.(abortHistory); !ok {
+					panic(p)
+				}
+			}
+		}()
+		run(b)
+	}()
+	last := int64(-1)
+	hung := false
+wait:
+	for {
+		select {
+		case <-done:
+			break wait
+		case <-time.After(patience):
+			p := atomic.LoadInt64(&b.prog)
+			if p == last {
+				hung = true
+				break wait
+			}
+			last = p
+		}
+	}
+	b.mu.Lock()
+	for _, e := range b.evs {
+		w.Emit(e)
+	}
+	if hung {
+		if len(b.evs) == 0 {
+			w.Emit(tr.E{"ev": "reset", "kind": "nano", "nb": 0, "low": false, "node": 0, "seeded": false,
+				"min": limbs(0), "now": limbs(0), "threads": 1, "src": what})
+		}
+		w.Emit(tr.E{"ev": "hang", "what": what})
+		hangs++
+		b.evs = nil
+	}
+	b.mu.Unlock()
+}
+
+var patience = 8 * time.Second
+
+// newHard builds a HardNode.  A refusal is an observation: `new {err}` after the reset event; the
+// specification accepts it exactly when the node number does not fit the node width.
+func newHard(w sink, l layout, min int64, src string) snowflake.Node {
 	n, err := snowflake.NewNode(l.node, min)
-	if err != nil {
-		tr.Fatal("NewNode(%d): %v", l.node, err)
+	if err != nil || n == nil {
+		w.Emit(resetEvent("hard", l, false, min, 0, 1, src))
+		w.Emit(tr.E{"ev": "new", "err": true})
+		panic(abortHistory{})
 	}
 	return n
+}
+
+func newMono(w sink, l layout, src string) snowflake.Node {
+	n, err := snowflake.NewMonoNode(l.node)
+	if err != nil || n == nil {
+		w.Emit(resetEvent("mono", l, false, 0, 0, 1, src))
+		w.Emit(tr.E{"ev": "new", "err": true})
+		panic(abortHistory{})
+	}
+	return n
+}
+
+// runBadNode: node numbers that do not fit the node width (and the extremes that do).  The
+// constructors must refuse exactly the former; if one is accepted a few ids are generated as well.
+func runBadNode(w sink, rng *rand.Rand, i int) {
+	l := pickLayout(rng, i)
+	max := int64(1)<<l.nb - 1
+	l.node = []int64{max + 1, -1, 1 << 20, 1 << 12, max + 2, -(1 << 20), 0, max}[i%8]
+	kind := []string{"hard", "mono"}[(i/8)%2]
+	if kind == "mono" {
+		l.epoch = monoEpoch(l.epoch)
+	}
+	defer l.install()()
+	defer snowflake.VerifSetNow(func() time.Time { return time.UnixMilli(l.epoch + 12345) })()
+	var n snowflake.Node
+	var err error
+	if kind == "hard" {
+		n, err = snowflake.NewNode(l.node, 0)
+	} else {
+		n, err = snowflake.NewMonoNode(l.node)
+	}
+	w.Emit(resetEvent(kind, l, false, 0, 12345, 1, "badnode"))
+	w.Emit(tr.E{"ev": "new", "err": err != nil})
+	if err == nil && n != nil {
+		for k := 0; k < 3; k++ {
+			id, p := safeGen(n.Generate)
+			if p != "" {
+				w.Emit(tr.E{"ev": "panic", "msg": p})
+				return
+			}
+			now := int64(12345)
+			if kind == "mono" {
+				now = 0
+			}
+			w.Emit(tr.E{"ev": "gen", "now": limbs(now), "id": limbs(id), "nsovf": false})
+		}
+	}
 }
 
 // ---------------------------------------------------------------- clock domain
@@ -175,9 +326,9 @@ func clampRel(l layout, r int64) int64 {
 // ---------------------------------------------------------------- sequential: HardNode
 
 type hardSeq struct {
-	w      *tr.W
+	w      sink
 	l      layout
-	rel    int64 // current reading (ms relative to epoch), read by the hook
+	rel    *int64 // current reading (ms relative to epoch), read by the hook (shared by a pair)
 	n      snowflake.Node
 	lastID int64
 	has    bool
@@ -185,15 +336,15 @@ type hardSeq struct {
 }
 
 func (h *hardSeq) start(seeded bool, min int64) {
-	h.n = newHard(h.l, min)
+	h.n = newHard(h.w, h.l, min, h.src)
 	h.has = seeded
 	h.lastID = min
-	h.w.Emit(resetEvent("hard", h.l, seeded, min, atomic.LoadInt64(&h.rel), 1, h.src))
+	h.w.Emit(resetEvent("hard", h.l, seeded, min, atomic.LoadInt64(h.rel), 1, h.src))
 }
 
 func (h *hardSeq) gen(k int) {
 	for i := 0; i < k; i++ {
-		now := atomic.LoadInt64(&h.rel)
+		now := atomic.LoadInt64(h.rel)
 		id, p := safeGen(h.n.Generate)
 		if p != "" {
 			h.w.Emit(tr.E{"ev": "panic", "msg": p})
@@ -204,27 +355,27 @@ func (h *hardSeq) gen(k int) {
 	}
 }
 
-func (h *hardSeq) set(r int64) { atomic.StoreInt64(&h.rel, clampRel(h.l, r)) }
+func (h *hardSeq) set(r int64) { atomic.StoreInt64(h.rel, clampRel(h.l, r)) }
 
-func runHardSeq(w *tr.W, rng *rand.Rand, i int, nseg int, burst bool) {
+func runHardSeq(w sink, rng *rand.Rand, i int, nseg int, burst bool) {
 	l := pickLayout(rng, i)
 	defer l.install()()
-	h := &hardSeq{w: w, l: l, src: "hardseq"}
+	h := &hardSeq{w: w, l: l, src: "hardseq", rel: new(int64)}
 	h.set(pickBase(rng, l))
 	defer snowflake.VerifSetNow(func() time.Time {
-		return time.UnixMilli(l.epoch + atomic.LoadInt64(&h.rel))
+		return time.UnixMilli(l.epoch + atomic.LoadInt64(h.rel))
 	})()
 	// first incarnation: fresh, or restarted with an id that this node could have issued
 	switch rng.Intn(4) {
 	case 0:
 		h.start(false, 0)
 	default:
-		h.start(true, fabricate(rng, l, atomic.LoadInt64(&h.rel)))
+		h.start(true, fabricate(rng, l, atomic.LoadInt64(h.rel)))
 	}
 	if burst {
 		// more than 4096 requests inside one millisecond, then the clock stalls / steps by one
 		h.gen(4097 + rng.Intn(300))
-		h.set(h.rel + int64(rng.Intn(3)))
+		h.set(*h.rel + int64(rng.Intn(3)))
 		h.gen(3)
 		nseg = 6
 	}
@@ -233,10 +384,10 @@ func runHardSeq(w *tr.W, rng *rand.Rand, i int, nseg int, burst bool) {
 		case x < 22: // stall
 			h.gen([]int{1, 2, 3, 5, 17, 60}[rng.Intn(6)])
 		case x < 42: // forward
-			h.set(h.rel + []int64{1, 1, 2, 7, 1000, 86400000, 1 << 35}[rng.Intn(7)])
+			h.set(*h.rel + []int64{1, 1, 2, 7, 1000, 86400000, 1 << 35}[rng.Intn(7)])
 			h.gen(1 + rng.Intn(3))
 		case x < 62: // backwards
-			h.set(h.rel - []int64{1, 1, 2, 50, 1000000, 1 << 36}[rng.Intn(6)])
+			h.set(*h.rel - []int64{1, 1, 2, 50, 1000000, 1 << 36}[rng.Intn(6)])
 			h.gen(1 + rng.Intn(4))
 		case x < 70: // somewhere else entirely
 			h.set(pickBase(rng, l))
@@ -247,14 +398,73 @@ func runHardSeq(w *tr.W, rng *rand.Rand, i int, nseg int, burst bool) {
 				h.gen(1 + rng.Intn(3))
 			}
 		case x < 93: // restart with an id near a step wrap
-			h.start(true, fabricate(rng, l, atomic.LoadInt64(&h.rel)))
+			h.start(true, fabricate(rng, l, atomic.LoadInt64(h.rel)))
 			h.gen(1 + rng.Intn(6))
 		default: // the clock jumps back while the step counter is about to wrap
 			if h.has {
-				h.set(h.rel - int64(rng.Intn(3)))
+				h.set(*h.rel - int64(rng.Intn(3)))
 				h.gen(2)
 			}
 		}
+	}
+}
+
+// runHardPair: ONE caller uses two nodes (different node numbers, same layout and clock) in turns,
+// restarting either of them now and then.  Each node is a generator of its own: its ids must be
+// increasing, floored by the clock and carry its own number whatever the other one is doing.  The
+// two histories are recorded separately and written one after the other.
+func runHardPair(w sink, rng *rand.Rand, i int, nseg int) {
+	l := pickLayout(rng, i)
+	defer l.install()()
+	rel := new(int64)
+	la, lb := l, l
+	max := int64(1)<<l.nb - 1
+	lb.node = (l.node + 1 + rng.Int63n(max)) % (max + 1)
+	ba, bb := &bufSink{}, &bufSink{}
+	hs := []*hardSeq{{w: ba, l: la, src: "hardpair", rel: rel}, {w: bb, l: lb, src: "hardpair", rel: rel}}
+	hs[0].set(pickBase(rng, l))
+	defer snowflake.VerifSetNow(func() time.Time {
+		return time.UnixMilli(l.epoch + atomic.LoadInt64(rel))
+	})()
+	defer func() { // whatever happens, what was recorded is written
+		for _, b := range []*bufSink{ba, bb} {
+			for _, e := range b.evs {
+				w.Emit(e)
+			}
+		}
+	}()
+	for _, h := range hs {
+		if rng.Intn(2) == 0 {
+			h.start(false, 0)
+		} else {
+			h.start(true, fabricate(rng, h.l, atomic.LoadInt64(rel)))
+		}
+	}
+	for s := 0; s < nseg; s++ {
+		h := hs[rng.Intn(2)]
+		switch x := rng.Intn(100); {
+		case x < 45:
+			h.gen(1 + rng.Intn(3))
+		case x < 60:
+			h.set(*h.rel + []int64{1, 1, 2, 1000}[rng.Intn(4)])
+			h.gen(1)
+		case x < 75:
+			h.set(*h.rel - []int64{1, 2, 50, 100000}[rng.Intn(4)])
+			h.gen(1 + rng.Intn(2))
+		case x < 85: // alternate strictly
+			for k := 0; k < 4; k++ {
+				hs[k%2].gen(1)
+			}
+		case x < 93:
+			if h.has {
+				h.start(true, h.lastID)
+				h.gen(1)
+			}
+		default:
+			h.start(true, fabricate(rng, h.l, atomic.LoadInt64(rel)))
+			h.gen(2)
+		}
+		tick(w)
 	}
 }
 
@@ -271,22 +481,22 @@ func fabricate(rng *rand.Rand, l layout, rel int64) int64 {
 
 // ---------------------------------------------------------------- sequential: MonoNode, nano
 
-func runMonoSeq(w *tr.W, rng *rand.Rand, i int, calls int) {
+func runMonoSeq(w sink, rng *rand.Rand, i int, calls int) {
 	l := pickLayout(rng, i)
 	l.epoch = monoEpoch(l.epoch)
 	defer l.install()()
-	n, err := snowflake.NewMonoNode(l.node)
-	if err != nil {
-		tr.Fatal("NewMonoNode: %v", err)
-	}
+	n := newMono(w, l, "monoseq")
 	ids := make([]int64, 0, calls)
 	var pm string
+	w.Emit(resetEvent("mono", l, false, 0, 0, 1, "monoseq"))
 	for k := 0; k < calls && pm == ""; k++ { // tight loop: far more than 4096 calls per millisecond
 		var id int64
 		id, pm = safeGen(n.Generate)
 		ids = append(ids, id)
+		if k&1023 == 0 {
+			tick(w)
+		}
 	}
-	w.Emit(resetEvent("mono", l, false, 0, 0, 1, "monoseq"))
 	for k, id := range ids {
 		if pm != "" && k == len(ids)-1 {
 			w.Emit(tr.E{"ev": "panic", "msg": pm})
@@ -310,8 +520,9 @@ type nanoGen interface {
 	GenIDByTS(ts int64) int64
 }
 
-func runNanoSeq(w *tr.W, rng *rand.Rand, i int, calls int) {
-	bases := []int64{0, 1, -5, time.Now().UnixNano(), 1 << 62, -(1 << 62), rng.Int63n(1 << 60)}
+func runNanoSeq(w sink, rng *rand.Rand, i int, calls int) {
+	bases := []int64{0, 1, -5, time.Now().UnixNano(), 1 << 62, -(1 << 62), rng.Int63n(1 << 60),
+		-(1 << 63) + 1<<40, 1<<63 - 1<<50}
 	cur := bases[rng.Intn(len(bases))]
 	var g nanoGen
 	src := "nanoseq"
@@ -408,10 +619,25 @@ func planLayout(rng *rand.Rand, p act, i int) layout {
 
 type arrival struct{ c chan int64 }
 
+// plansBroken: a plan ended with a goroutine that never parks (see settle)
+var plansBroken bool
+
+// direct runs a history on the calling goroutine; a refused constructor ends it.
+func direct(run func()) {
+	defer func() {
+		if p := recover(); p != nil {
+			if _, ok := p.(abortHistory); !ok {
+				panic(p)
+			}
+		}
+	}()
+	run()
+}
+
 // runPlan executes one plan on real goroutines.  Model clock value c is the reading base+c; a
 // seeded model node (t0, s0) is a real node restarted with (base+t0, 4092+s0), so that the step
 // counter wraps where the 2-bit counter of the model does.
-func runPlan(w *tr.W, rng *rand.Rand, name string, plan []act, i int) {
+func runPlan(w sink, rng *rand.Rand, name string, plan []act, i int) {
 	init := plan[0]
 	l := planLayout(rng, init, i)
 	defer l.install()()
@@ -439,12 +665,17 @@ func runPlan(w *tr.W, rng *rand.Rand, name string, plan []act, i int) {
 			lastMax = l.compose(0, 4092+init.S0)
 		}
 	}
-	node := newHard(l, lastMax)
+	node := newHard(w, l, lastMax, "plan:"+name)
 	w.Emit(resetEvent("hard", l, has, lastMax, rel, threads, "plan:"+name))
 
 	settle := func() {
 		if err := x.Settle(); err != nil {
-			tr.Fatal("plan %s: %v", name, err)
+			// something of the process keeps running although every step is one short call: a call
+			// of the code under test that spins.  An observation; the step-wise executor cannot go
+			// on with a goroutine that never parks, so the remaining plans are skipped.
+			w.Emit(tr.E{"ev": "hang", "what": "plan:" + name, "why": err.Error()})
+			plansBroken = true
+			panic(abortHistory{})
 		}
 		for {
 			select {
@@ -511,7 +742,7 @@ func runPlan(w *tr.W, rng *rand.Rand, name string, plan []act, i int) {
 			if busy() || !has {
 				continue
 			}
-			node = newHard(l, lastMax)
+			node = newHard(w, l, lastMax, "plan:"+name+":restart")
 			w.Emit(resetEvent("hard", l, true, lastMax, rel, threads, "plan:"+name+":restart"))
 		case "res", "init":
 		default:
@@ -532,15 +763,15 @@ func runPlan(w *tr.W, rng *rand.Rand, name string, plan []act, i int) {
 // runPlanBatch executes the plan's clock trajectory sequentially with every linearized call of
 // the model standing for 1024 real calls (4 x 1024 = one full step cycle, as 4 calls are in the
 // model), so stalls of the model become bursts of more than 4096 calls in one millisecond.
-func runPlanBatch(w *tr.W, rng *rand.Rand, name string, plan []act, i int) {
+func runPlanBatch(w sink, rng *rand.Rand, name string, plan []act, i int) {
 	init := plan[0]
 	l := planLayout(rng, init, i)
 	defer l.install()()
 	base := pickBase(rng, l)
-	h := &hardSeq{w: w, l: l, src: "planbatch:" + name}
+	h := &hardSeq{w: w, l: l, src: "planbatch:" + name, rel: new(int64)}
 	h.set(base + init.C0)
 	defer snowflake.VerifSetNow(func() time.Time {
-		return time.UnixMilli(l.epoch + atomic.LoadInt64(&h.rel))
+		return time.UnixMilli(l.epoch + atomic.LoadInt64(h.rel))
 	})()
 	if init.Seeded {
 		ts := base + init.T0
@@ -598,7 +829,7 @@ var concByKind = map[string]*concStats{}
 // nano modes: "clock" = GenID() (reads time.Now), "ts" = GenIDByTS, "mixed" = both; the generator
 // starts at 0, at the current time, or ahead of the clock (the clock went back since the last id:
 // every call takes the current+1 path).
-func runConc(w *tr.W, rng *rand.Rand, kind, mode string, i int, G, perG, burners int) {
+func runConc(w sink, rng *rand.Rand, kind, mode string, i int, G, perG, burners int, cold bool) bool {
 	l := pickLayout(rng, i)
 	var gen func(r *rand.Rand) int64
 	var rel int64
@@ -622,16 +853,13 @@ func runConc(w *tr.W, rng *rand.Rand, kind, mode string, i int, G, perG, burners
 		if seeded {
 			min = fabricate(rng, l, rel)
 		}
-		n := newHard(l, min)
+		n := newHard(w, l, min, src)
 		gen = func(*rand.Rand) int64 { return n.Generate() }
 		reset = resetEvent("hard", l, seeded, min, rel, G, src)
 	case "mono":
 		l.epoch = monoEpoch(l.epoch)
 		restores = append(restores, l.install())
-		n, err := snowflake.NewMonoNode(l.node)
-		if err != nil {
-			tr.Fatal("NewMonoNode: %v", err)
-		}
+		n := newMono(w, l, src)
 		gen = func(*rand.Rand) int64 { return n.Generate() }
 		reset = resetEvent("mono", l, false, 0, 0, G, src)
 	case "nano":
@@ -729,10 +957,33 @@ func runConc(w *tr.W, rng *rand.Rand, kind, mode string, i int, G, perG, burners
 	}
 	sort.Slice(all, func(a, b int) bool { return all[a].seq < all[b].seq })
 	// overlap statistics: a call overlapped if another call was pending at some point of it
-	st := concByKind[kind]
+	key := kind
+	if cold {
+		// cold-start round: a fresh generator first touched by all goroutines at once, a few calls
+		// each.  A round whose calls did not overlap is a sequential history and is not kept.
+		key = kind + "-cold"
+		over, pend := false, 0
+		for _, e := range all {
+			switch e.kind {
+			case 'i':
+				if pend > 0 {
+					over = true
+				}
+				pend++
+			case 'r', 'p':
+				pend--
+			}
+		}
+		coldRounds++
+		if !over {
+			return false
+		}
+		reset["src"] = "cold-" + fmt.Sprint(reset["src"])
+	}
+	st := concByKind[key]
 	if st == nil {
 		st = &concStats{}
-		concByKind[kind] = st
+		concByKind[key] = st
 	}
 	pending := map[int]bool{} // thread -> its pending call already counted as overlapped
 	w.Emit(reset)
@@ -765,7 +1016,10 @@ func runConc(w *tr.W, rng *rand.Rand, kind, mode string, i int, G, perG, burners
 			w.Emit(tr.E{"ev": "clk", "now": limbs(e.v)})
 		}
 	}
+	return true
 }
+
+var coldRounds int
 
 func main() {
 	plans := flag.String("plans", "", "directory of TLC-generated plans")
@@ -779,6 +1033,10 @@ func main() {
 	monoCalls := flag.Int("monocalls", 9000, "calls per MonoNode run")
 	nnano := flag.Int("nano", 40, "sequential nano histories")
 	nconc := flag.Int("nconc", 12, "free-running histories")
+	npair := flag.Int("pair", 40, "histories of one caller using two HardNodes in turns")
+	nbad := flag.Int("bad", 16, "constructor calls with node numbers at and beyond the node width")
+	ncold := flag.Int("cold", 250, "cold-start rounds to keep (rounds whose calls overlapped)")
+	coldMs := flag.Int("coldms", 2500, "time budget for finding them, ms")
 	perG := flag.Int("perg", 200, "logged calls per goroutine in free-running histories")
 	flag.Parse()
 	rng := rand.New(rand.NewSource(*seed))
@@ -793,20 +1051,28 @@ func main() {
 			if len(p) == 0 || p[0].Op != "init" {
 				tr.Fatal("plan %s does not start with init", f)
 			}
-			runPlan(w, rng, filepath.Base(f), p, i)
+			if !plansBroken {
+				direct(func() { runPlan(w, rng, filepath.Base(f), p, i) })
+			}
 			if i < *nbatch {
-				runPlanBatch(w, rng, filepath.Base(f), p, i)
+				guarded(w, "planbatch", func(s sink) { runPlanBatch(s, rng, filepath.Base(f), p, i) })
 			}
 		}
 	}
 	for i := 0; i < *nhist; i++ {
-		runHardSeq(w, rng, i, 4+rng.Intn(14), i < *nburst)
+		guarded(w, "hardseq", func(s sink) { runHardSeq(s, rng, i, 4+rng.Intn(14), i < *nburst) })
+	}
+	for i := 0; i < *npair; i++ {
+		guarded(w, "hardpair", func(s sink) { runHardPair(s, rng, i, 10+rng.Intn(30)) })
+	}
+	for i := 0; i < *nbad; i++ {
+		guarded(w, "badnode", func(s sink) { runBadNode(s, rng, i) })
 	}
 	for i := 0; i < *nmono; i++ {
-		runMonoSeq(w, rng, i, *monoCalls)
+		guarded(w, "monoseq", func(s sink) { runMonoSeq(s, rng, i, *monoCalls) })
 	}
 	for i := 0; i < *nnano; i++ {
-		runNanoSeq(w, rng, i, 20+rng.Intn(60))
+		guarded(w, "nanoseq", func(s sink) { runNanoSeq(s, rng, i, 20+rng.Intn(60)) })
 	}
 	w.Close()
 
@@ -814,19 +1080,45 @@ func main() {
 	cw.NoSync = true
 	for i := 0; i < *nconc; i++ {
 		G := []int{8, 4, 16, 6}[(i/2)%4]
-		switch i % 4 {
-		case 0:
-			runConc(cw, rng, "nano", "clock", i, G, *perG*5/2, 0)
-		case 1:
-			runConc(cw, rng, "hard", "", i, G, *perG, 0)
-		case 2:
-			runConc(cw, rng, "mono", "", i, G, *perG*2, 2*((i/4)%2))
-		default:
-			runConc(cw, rng, "nano", []string{"mixed", "ts"}[(i/4)%2], i, G, *perG*5/2, 0)
-		}
+		guarded(cw, "conc", func(s sink) {
+			switch i % 4 {
+			case 0:
+				runConc(s, rng, "nano", "clock", i, G, *perG*5/2, 0, false)
+			case 1:
+				runConc(s, rng, "hard", "", i, G, *perG, 0, false)
+			case 2:
+				runConc(s, rng, "mono", "", i, G, *perG*2, 2*((i/4)%2), false)
+			default:
+				runConc(s, rng, "nano", []string{"mixed", "ts"}[(i/4)%2], i, G, *perG*5/2, 0, false)
+			}
+		})
+	}
+	// cold-start rounds: many cheap rounds on fresh generators; rounds are run until `ncold` of them
+	// really overlapped (or the time budget is used up - on a starved machine few rounds overlap)
+	kept := 0
+	deadline := time.Now().Add(time.Duration(*coldMs) * time.Millisecond)
+	for i := 0; kept < *ncold && hangs == 0 && (i < *ncold || time.Now().Before(deadline)); i++ {
+		G := 2 + i%3
+		guarded(cw, "cold", func(s sink) {
+			var ok bool
+			switch i % 5 {
+			case 0, 3:
+				ok = runConc(s, rng, "nano", "clock", 4*(i%7), G, 3+i%5, 0, true)
+			case 1:
+				ok = runConc(s, rng, "hard", "", i, G, 3+i%5, 0, true)
+			case 2:
+				ok = runConc(s, rng, "mono", "", i, G, 3+i%5, 0, true)
+			default:
+				ok = runConc(s, rng, "nano", "mixed", 4*(i%7)+3, G, 3+i%5, 0, true)
+			}
+			if ok {
+				kept++
+			}
+		})
 	}
 	cw.Close()
-	for _, k := range []string{"hard", "mono", "nano"} {
+	fmt.Printf("cold rounds=%d kept=%d hangs=%d\n", coldRounds, kept, hangs)
+	for _, k := range []string{"hard", "mono", "nano", "hard-cold", "mono-cold", "nano-cold"} {
 		if st := concByKind[k]; st != nil {
 			fmt.Printf("overlap kind=%s calls=%d overlapped=%d maxpending=%d\n", k, st.calls, st.overlapped, st.maxPending)
 		}
